@@ -3,6 +3,7 @@ import PyaModel.Spec.Mem
 import PyaModel.Generated.ClassTable
 import PyaModel.Spec.WF
 import PyaModel.Spec.D04
+import PyaModel.Spec.D04Sound
 import PyaModel.Core.Union
 import PyaModel.Spec.D14
 /-! Line protocol driver for the value kernels (C03, C04, …).
@@ -29,7 +30,7 @@ def handle (line : String) : String :=
     | _, _ => "bad-op"
   | some [.atom "d04", a, b] =>
     match a.toTy, b.toTy with
-    | some a, some b => (match d04Classes liveTable a b with | [] => "-" | cs => ",".intercalate cs)
+    | some a, some b => (match d04SoundClasses liveTable a b with | [] => "-" | cs => ",".intercalate cs)
     | _, _ => "bad-op"
   | some (.atom "subst" :: .node kvs :: [t]) =>
     -- `subst ((0 T) (1 U)) term`
